@@ -11,15 +11,20 @@ import Nstd.Rc.Lemmas
 namespace Nstd.Rc
 
 /-
-  OPEN: handles nested inside payloads.  The String object inside a Variant / Xml::Variant block
-  (and the Variants inside a list payload) is itself a handle to a counted block.  The theorems
-  below cover such a nested handle only as a slot owned by ONE thread at a time; the concurrent
-  read-only use of the inner String of a box that is shared by handles of several threads
-  (`Variant::toString() const` in two threads) is not modelled: payloads are flat in `apiStep`,
-  and the inner blocks are covered only by the ledger accounting of the harness (no leak, no
-  double release at the end of every history).  Statement that remains open:
-    theorem mt_safe_nested : the conjunction of `mt_safe` for a heap whose blocks contain handle
-      slots that may be read (copied from) by every thread holding a handle to the enclosing block.
+  Handles nested inside payloads (the `next` pointer of a counted object, the String inside a box):
+  the handle embedded in block c is the slot `embSlot c`.  `Reach` contains, besides the steps of a
+  thread on its own slots, the steps `incE` (a thread holding c copies the embedded handle: shared
+  payloads are read by every holder), `takeE`/`putE` (only the thread holding the ONLY handle of c
+  replaces the embedded handle) and `takeF` (the thread whose decrement of c reached zero takes the
+  embedded handle out before it deletes c: the destructor).  All theorems below therefore hold for
+  programs with nested handles; `mt_safe_nested`, `mt_embedded_write_sole`, `mt_embedded_take_on_release`
+  and `mt_embedded_stable` state the nested part explicitly.
+
+  OPEN (what is still not covered): payloads with MORE than one embedded handle (the Variants of a list / map
+  payload, the children of an Xml element) and in-place writes THROUGH an embedded handle (`v.toString().append`
+  on a box whose inner String block is itself shared); in `apiStep` the String inside a Variant / Xml::Variant
+  box is still flat content, only RefCount objects carry a modelled embedded handle, so the cross-kind calls
+  `Variant = String variable` / `String = variant.toString()` are not in the correspondence.
 -/
 
 /-- multi-threaded safety: in every reachable state, for every schedule and all programs -/
@@ -72,6 +77,73 @@ theorem mt_ref_inflight {s : St} (h : Reach nSlots s) (b : Nat) (blk : Block) (h
   have split : List.range nSlots = List.range nVars ++ List.range' nVars (2 * nThreads) := by decide
   simp only [handles, handlesOf, hn, split, List.countP_append] at hc
   simpa [handlesOf] using hc
+
+/-- nested handles: the counter of a block = handles in top-level slots (variables, scratch) + handles
+    embedded in payloads, for every layout in which the first `a` slots are top-level -/
+theorem mt_safe_nested {n : Nat} {s : St} (h : Reach n s) (a : Nat) (ha : a ≤ n) (b : Nat) (blk : Block)
+    (hb : s.heap b = some blk) :
+    blk.ref = handlesOf a s.slots b + (List.range' a (n - a)).countP (fun v => s.slots v == Handle.blk b) := by
+  have hc := (inv_reach h).cnt b blk hb
+  have hn := reach_n h
+  simp only [handles, hn] at hc
+  rw [hc]; exact handlesOf_split n a s.slots b ha
+
+/-- an embedded handle is replaced only by the thread that holds the only handle of the enclosing block -/
+theorem mt_embedded_write_sole {n : Nat} {s s' : St} {tid t c v : Nat} (h : Reach n s)
+    (hs : astep s tid (.takeE t c v) = some s' ∨ astep s tid (.putE c t v) = some s') :
+    handles s c = 1 ∧ s.slots v = .blk c ∧ s.owner v = tid := by
+  have inv := inv_reach h
+  have key : soleVia s tid v c → handles s c = 1 ∧ s.slots v = .blk c ∧ s.owner v = tid := by
+    rintro ⟨_, ho, hsl, blk, hb, hr⟩
+    exact ⟨by rw [← inv.cnt c blk hb]; exact hr, hsl, ho⟩
+  rcases hs with hs | hs <;> simp only [astep] at hs <;> split at hs
+  · rename_i hc; exact key hc.2.2.2.2.2.2.2
+  · cases hs
+  · rename_i hc; exact key hc.2.2.2.2.2.2.2
+  · cases hs
+
+/-- the destructor step: the embedded handle is taken out of a block that has no handle left and that
+    this thread is about to delete (nobody else can reach it) -/
+theorem mt_embedded_take_on_release {n : Nat} {s s' : St} {tid t c : Nat} (h : Reach n s)
+    (hs : astep s tid (.takeF t c) = some s') :
+    handles s c = 0 ∧ (∃ blk, s.heap c = some blk) ∧ ∀ tid', s.pc tid' = .freeing c → tid' = tid := by
+  have inv := inv_reach h
+  simp only [astep] at hs
+  split at hs
+  case isFalse => cases hs
+  case isTrue hc =>
+    obtain ⟨⟨blk, hb, hz⟩, hu⟩ := inv.freeing tid c hc.2.2.2.2.1
+    exact ⟨by rw [← inv.cnt c blk hb]; exact hz, ⟨blk, hb⟩, hu⟩
+
+/-- a shared payload is read-only: while thread `tid` holds block c through its own slot v, no step of
+    another thread (other than the owner of the embedded slot itself) changes the handle embedded in c -/
+theorem mt_embedded_stable {n : Nat} {s s' : St} {tid tid2 v c : Nat} {a : Act} (h : Reach n s)
+    (hv : v < s.n) (ho : s.owner v = tid) (hsl : s.slots v = .blk c)
+    (hs : astep s tid2 a = some s') (hne : tid2 ≠ tid) (hown : s.owner (embSlot c) ≠ tid2) :
+    s'.slots (embSlot c) = s.slots (embSlot c) := by
+  have inv := inv_reach h
+  rcases astep_slots_other hs hown with e | ⟨t, c', v', ha, hx⟩ | ⟨t, c', ha, hx⟩
+  · exact e
+  · -- takeE / putE by tid2 needs the only handle of c, but v (of another thread) designates c as well
+    have hc' : c' = c := by simp only [embSlot] at hx; omega
+    subst hc'
+    have sole : handles s c' = 1 ∧ s.slots v' = .blk c' ∧ s.owner v' = tid2 := by
+      rcases ha with ha | ha
+      · subst ha; exact mt_embedded_write_sole h (Or.inl hs)
+      · subst ha; exact mt_embedded_write_sole h (Or.inr hs)
+    have hv' : v' < s.n := by
+      rcases ha with ha | ha <;> subst ha <;> simp only [astep] at hs <;> split at hs <;>
+        first | (cases hs; done) | (rename_i hc; exact hc.2.2.2.2.2.2.2.1)
+    have hvv : v ≠ v' := by intro e; subst e; rw [ho] at sole; exact hne sole.2.2.symm
+    have := sole_handle s.n s.slots v' v c' hv' hv hvv sole.2.1 hsl
+    have h1 := sole.1
+    simp only [handles] at h1; omega
+  · -- takeF by tid2 needs c without handles
+    have hc' : c' = c := by simp only [embSlot] at hx; omega
+    subst hc'; subst ha
+    have z := (mt_embedded_take_on_release h hs).1
+    have := handles_pos s.n s.slots v c' hv hsl
+    simp only [handles] at z; omega
 
 /-- the NEXT step of any thread from any reachable state is safe as well: it does not touch a
     released block, release twice, or write in place a block that has another handle -/
